@@ -88,13 +88,9 @@ fn slice_items<T: Clone>(items: &[T], start: Option<i128>,
             assert((n + 1) * (step as int) == n * (step as int) + step) by (nonlinear_arith);
         }
         out.push(items[i as usize].clone());
-        let ghost i0 = i;
         i = i.saturating_add(step);
         proof {
             m = m + step;
-            if step > 0 { assert(i > i0); } else { assert(i < i0); }
-            assert((if step > 0 { e - i } else { i - e }) < (if step > 0 { e - i0 } else { i0 - e }));
-            assert((if step > 0 { e - i0 } else { i0 - e }) >= 0);
         }
     }
     out
